@@ -64,3 +64,8 @@ Theorem C09_wal_strict : forall ops w,
   sorted_by N.lt (run_rets w ops).
 Proof. exact C08_wal_strict. Qed.
 Print Assumptions C09_wal_strict.
+
+Theorem C09_batch_error_no_effect : forall w ops w' r,
+  wal_append_batch w ops = (w', r) -> (forall s, r <> WOk s) -> w' = w.
+Proof. exact WalCodecProofs.C09_batch_error_no_effect. Qed.
+Print Assumptions C09_batch_error_no_effect.
